@@ -68,6 +68,9 @@ func init() {
 			sc.Stages = append(sc.Stages, StageSpec{Op: "comb:" + name})
 			sc.Sub = c14Terminators[g.Intn(len(c14Terminators))]
 			sc.SetInt("n", g.Range(1, 3))
+			if g.Bool(0.2) {
+				sc.SetInt("tdpanic", g.Intn(k)+1) // the teardown of that source panics: the others must still be released
+			}
 			return sc
 		},
 		Run: runC14,
@@ -82,6 +85,7 @@ func init() {
 			sc.Sub = g.Pick("Interval", "IntervalWithInitial", "Never", "Timer", "RangeWithInterval", "RepeatWithInterval", "ThrowOnContextCancel", "Retry")
 			sc.SetInt("d", g.PickInt(1, 2, 3))
 			sc.SetInt("at", g.Range(0, 8))
+			sc.SetInt("reset", g.Intn(2)) // a ContextReset stage between the source and the subscriber
 			return sc
 		},
 		Run: runC14Ctx,
@@ -94,8 +98,11 @@ func runC14(e *Env) {
 	var srcs []*Src
 	if sc.Family == "C14.comb" {
 		var obs []ro.Observable[int]
-		for _, sp := range sc.Sources {
+		for i, sp := range sc.Sources {
 			s := e.NewSrc(sp)
+			if sc.Int("tdpanic", 0) == i+1 {
+				s.PanicTeardown = true
+			}
 			srcs = append(srcs, s)
 			obs = append(obs, s.Obs())
 		}
@@ -161,15 +168,34 @@ func runC14(e *Env) {
 			e.Probe("subscribe-blocked-no-terminator")
 			return
 		}
-		e.Go("unsubscriber", func() { h.Sub().Unsubscribe(); unsubRet = true })
+		e.Go("unsubscriber", func() {
+			defer func() {
+				unsubRet = true
+				if r := recover(); r != nil && sc.Int("tdpanic", 0) == 0 {
+					e.Violate("C14", "unsubscribe-panics", fmt.Sprintf("Unsubscribe panicked: %v", r))
+				}
+			}()
+			h.Sub().Unsubscribe()
+		})
 		e.Settle()
+		for _, st := range sc.Stages {
+			if st.Op == "DelayEach" && !unsubRet {
+				// DelayEach sleeps on the delivering goroutine, possibly while an upstream operator holds
+				// its own lock around the delivery (Delay): the teardown then waits for that sleep to end.
+				// A bounded wait on time, not on upstream.
+				e.SettleFor(4 * Unit)
+			}
+		}
 		if !unsubRet {
 			e.Violate("C14", "unsubscribe-blocks", "external Unsubscribe did not return without the clock advancing")
 			return
 		}
 	case notifier != nil:
 		e.RunUntil(func() bool { return len(rec.Events) >= n-1 }, 40)
-		e.Go("notifier", func() { notifier.Next(1) })
+		e.Go("notifier", func() {
+			defer func() { recover() }() // a panicking teardown (tdpanic) is re-raised to whoever triggered the termination
+			notifier.Next(1)
+		})
 		e.Settle()
 		if !terminated() {
 			e.Probe("takeuntil-not-terminated")
@@ -248,6 +274,11 @@ func runC14Ctx(e *Env) {
 	case "Retry":
 		src = e.NewSrc(SrcSpec{Mode: "timed", Script: []Step{{K: "N", V: 1, Gap: 1}, {K: "E", V: 2, Gap: 1}}})
 		o = ro.RetryWithConfig[int](ro.RetryConfig{Delay: d})(src.Obs())
+	}
+	if sc.Int("reset", 0) == 1 {
+		// ContextReset replaces the context travelling with the notifications; the subscription context
+		// (and its cancellation) must still reach the source
+		o = ro.ContextReset[int](context.WithValue(context.Background(), ctxKey("reset"), 1))(o)
 	}
 	ctx, cancel := simcontext.WithCancel(context.Background())
 	rec := e.NewRec("o")
